@@ -192,14 +192,16 @@ EvObs == /\ IsEv("Obs") /\ stage[Ev.s] \in {"global", "obs"} /\ ~Ev.as
          /\ stage' = [stage EXCEPT ![Ev.s] = "obs"]
          /\ UNCHANGED <<obsOf, obsIdx, obsSt, nObs, dataTag, dataPre, mustObs, annAtClose>> /\ C03U /\ C04U /\ Keep
 SeenSet(s) == {seen[s][i] : i \in 1..Len(seen[s])}
+\* registered before the close began and neither removed nor being removed since: these MUST be called
+StillReg(s) == {g \in mustObs[s] : obsSt[g] = "reg"}
 EvCleanup == /\ IsEv("Cleanup") /\ stage[Ev.s] \in {"global", "obs"} /\ ~Ev.as
-             /\ mustObs[Ev.s] \subseteq SeenSet(Ev.s)                             \* cleanup is last
+             /\ StillReg(Ev.s) \subseteq SeenSet(Ev.s)                             \* cleanup is last
              /\ Ev.tag = dataTag[Ev.s]
              /\ stage' = [stage EXCEPT ![Ev.s] = "cleanup"]
              /\ UNCHANGED <<obsOf, obsIdx, obsSt, nObs, dataTag, dataPre, seen, mustObs, annAtClose>> /\ C03U /\ C04U /\ Keep
 EvCloseRet == /\ IsEv("CloseRet") /\ stage[Ev.s] \in {"start", "global", "obs", "cleanup"}
               /\ annAtClose[Ev.s] => stage[Ev.s] # "start"                        \* an announced session gets its close
-              /\ (stage[Ev.s] # "start") => mustObs[Ev.s] \subseteq SeenSet(Ev.s) \* every still-registered observer ran
+              /\ (stage[Ev.s] # "start") => StillReg(Ev.s) \subseteq SeenSet(Ev.s) \* every still-registered observer ran
               /\ (stage[Ev.s] # "start" /\ dataPre[Ev.s]) => stage[Ev.s] = "cleanup"
               /\ stage' = [stage EXCEPT ![Ev.s] = "done"]
               /\ UNCHANGED <<obsOf, obsIdx, obsSt, nObs, dataTag, dataPre, seen, mustObs, annAtClose>> /\ C03U /\ C04U /\ Keep
